@@ -88,6 +88,78 @@ def run_arith(chk, spec):
 			f"{spec!r}: serif {short(got, 200)} vs python {short(exp, 200)}: {d}")
 
 
+def run_identity(chk, spec):
+	"""the result of an operation is a NEW vector, also when the operation leaves every value as it is (+v, v + 0, v * 1, abs of non-negatives ...):
+	it is not the operand, and a write to it does not reach the operand"""
+	import operator
+	vals = list(spec["values"])
+	v = Vector(list(vals), name="v")
+	name = spec["expr"]
+	f = {"+v": lambda: +v, "v+0": lambda: v + 0, "0+v": lambda: 0 + v, "v*1": lambda: v * 1, "1*v": lambda: 1 * v, "v-0": lambda: v - 0, "v/1": lambda: v / 1, "v**1": lambda: v ** 1,
+		"abs(v)": lambda: abs(v), "v//1": lambda: v // 1, "-(-v)": lambda: -(-v), "v+[0..]": lambda: v + [0] * len(v), "v|0": lambda: v | 0 if all(isinstance(x, int) for x in vals) else v + 0,
+		"v+0.0": lambda: v + 0.0, "False+v": lambda: False + v}[name]
+	o = call(f)
+	chk.judged("arith-value", ("identity", name, kinds_sig(vals), len(vals)))
+	if not o.ok:
+		chk.skip("identity-raised")
+		return
+	r = o.value
+	chk.observe(r, "identity")
+	if r is v:
+		chk.fail("the result of an operation is a new vector", f"arith/returns-its-operand/{name}", f"Vector({vals!r}): {name} is the operand itself")
+		return
+	py = {"+v": lambda x: +x, "v+0": lambda x: x + 0, "0+v": lambda x: 0 + x, "v*1": lambda x: x * 1, "1*v": lambda x: 1 * x, "v-0": lambda x: x - 0, "v/1": lambda x: x / 1, "v**1": lambda x: x ** 1,
+		"abs(v)": abs, "v//1": lambda x: x // 1, "-(-v)": lambda x: -(-x), "v+[0..]": lambda x: x + 0, "v|0": (lambda x: x | 0) if all(isinstance(x, int) for x in vals) else (lambda x: x + 0),
+		"v+0.0": lambda x: x + 0.0, "False+v": lambda x: False + x}[name]
+	try:
+		exp = [None if x is None else py(x) for x in vals]
+	except Exception:
+		exp = None
+	if exp is not None and isinstance(r, Vector):
+		d = M.first_diff(list(r._underlying), exp)
+		if d:
+			chk.fail("element i is exactly what Python computes for the i-th operands in written order", f"arith/element-mismatch/identity/{name}", f"Vector({vals!r}): {name} gives {short(list(r._underlying), 160)}, python {short(exp, 160)}: {d}")
+			return
+	if isinstance(r, Vector) and len(r):
+		before = M.snap_vector(v)
+		call(r.__setitem__, 0, r._underlying[-1] if len(r) > 1 and not M.same(r._underlying[0], r._underlying[-1]) else None)
+		if M.snap_vector(v) != before:
+			chk.fail("the result of an operation is a new vector", f"arith/result-shares-with-operand/{name}", f"Vector({vals!r}): writing into the result of {name} changed the operand")
+
+
+def run_row_arith(chk, spec):
+	"""rows are vectors: arithmetic on rows that were obtained one after the other and kept"""
+	cols = spec["cols"]
+	n = len(cols[0])
+	t = Table([Vector(list(c), name=f"c{j}") for j, c in enumerate(cols)])
+	i, k = spec["i"], spec["k"]
+	rows = [tuple(c[r] for c in cols) for r in range(n)]
+	a = t[i]
+	if spec["touch"] == "other-row":
+		b = t[k]
+	elif spec["touch"] == "shape":
+		b = None
+		t.shape
+	else:
+		b = None
+	chk.judged("arith-value", ("row-arith", spec["expr"], spec["touch"], n, len(cols)))
+	exprs = {"a*2": (lambda: a * 2, lambda: [x * 2 for x in rows[i]]), "1000-a": (lambda: 1000 - a, lambda: [1000 - x for x in rows[i]]), "-a": (lambda: -a, lambda: [-x for x in rows[i]]),
+		"a+b": (lambda: a + b, lambda: [x + y for x, y in zip(rows[i], rows[k])]), "a+list": (lambda: a + [1] * len(cols), lambda: [x + 1 for x in rows[i]]),
+		"b-a": (lambda: b - a, lambda: [y - x for x, y in zip(rows[i], rows[k])])}
+	if spec["expr"] in ("a+b", "b-a") and b is None:
+		chk.skip("row-arith-needs-two-rows")
+		return
+	f, m = exprs[spec["expr"]]
+	o = call(f)
+	exp = m()
+	if not o.ok:
+		chk.fail("serif computes what Python defines", f"arith/raises-where-python-defines/row/{spec['expr']}/{type(o.exc).__name__}", f"{spec!r}: rows {rows[i]!r} / {rows[k]!r}: {o!r}, python {exp!r}")
+		return
+	got = list(o.value) if isinstance(o.value, Vector) else None
+	if got is None or M.first_diff(got, exp):
+		chk.fail("element i is exactly what Python computes for the i-th operands in written order", f"arith/element-mismatch/row/{spec['expr']}", f"{spec!r}: a = t[{i}] = {rows[i]!r}" + (f", b = t[{k}] = {rows[k]!r}" if b is not None else "") + f": {spec['expr']} gives {got!r}, python {exp!r}")
+
+
 def run_table_arith(chk, spec):
 	"""table (op) scalar / table (op) table equals the vector operation per column"""
 	opname = spec["opname"]
@@ -291,7 +363,7 @@ def run_helper(chk, spec):
 			f"Vector({short(vals, 120)}).{name}({sep!r}): serif {short(got, 160)} vs documented {short(exp, 160)}: {d}")
 
 
-RUNNERS = {"helper": run_helper, "arith": run_arith, "table_arith": run_table_arith, "method": run_method, "date_days": run_date_days, "recompute": recompute.runner("C05")}
+RUNNERS = {"identity": run_identity, "row_arith": run_row_arith, "helper": run_helper, "arith": run_arith, "table_arith": run_table_arith, "method": run_method, "date_days": run_date_days, "recompute": recompute.runner("C05")}
 
 PAIRS = [("int", "int"), ("int", "float"), ("float", "int"), ("bool", "int"), ("int", "complex"), ("float", "float"), ("str", "str"),
 	("str", "int"), ("date", "timedelta"), ("datetime", "timedelta"), ("timedelta", "timedelta"), ("timedelta", "int"), ("list", "list"),
@@ -356,6 +428,31 @@ def run(chk):
 	nrand = 1500 if chk.quick() else 6000
 	for _ in range(nrand):
 		chk.case("arith", common.gen_arith_spec(rng), "arith-random")
+	# value-preserving operations still build a new vector; zero / one operands of every numeric type; narrower elements inside widened vectors
+	IDV = [[1, 2, 3], [1.5, -0.0, 2.0], [True, 2, 3], [True, 2.5, -0.0], [1j, 2 + 0j], [0, None, 4], [-0.0, None], [True, False], [2 ** 60, -1]]
+	for vals in IDV:
+		for expr in ("+v", "v+0", "0+v", "v*1", "1*v", "v-0", "v/1", "v**1", "abs(v)", "v//1", "-(-v)", "v+[0..]", "v+0.0", "False+v"):
+			if expr in ("v//1",) and any(isinstance(x, complex) for x in vals):
+				continue
+			chk.case("identity", {"values": vals, "expr": expr}, "arith-identity")
+	for opname in ("add", "sub", "mul"):
+		for zero in (0, False, 0.0, -0.0, 0j, 1, True, 1.0):
+			for a in ([-0.0, 1.5], [True, 2, 3], [True, 2.5], [1j, -0.0], [0.0, None, -0.0], [False, True]):
+				for form in ("vs", "sv"):
+					chk.case("arith", {"op": "arith", "opname": opname, "form": form, "a": a, "b": zero}, "arith-neutral-scalar")
+	# byte buffers are scalars like bytes
+	for a, b, opname in (([b"ab", b"cd"], bytearray(b"!"), "add"), ([b"ab", None], bytearray(b"xy"), "add"), ([2, 3], bytearray(b"ab"), "mul"), ([2, 3], bytearray(b"q"), "mul"), ([b"a%d", b"b%d"], 5, "mod"),
+			([bytearray(b"x"), bytearray(b"yz")], b"!", "add"), ([bytearray(b"x"), bytearray(b"yz")], 2, "mul")):
+		for form in ("vs", "sv"):
+			chk.case("arith", {"op": "arith", "opname": opname, "form": form, "a": a, "b": b}, "arith-bytearray")
+	# rows kept while other rows are fetched
+	for _ in range(150 if chk.quick() else 1000):
+		n, c = rng.choice([2, 3, 4]), rng.choice([2, 3])
+		kinds = rng.choice([["int"] * c, ["float"] * c, ["int", "float", "int"][:c]])
+		cols = [[rng.choice(ARITH_VALUES[k]) for _ in range(n)] for k in kinds]
+		i = rng.randrange(n)
+		k = (i + rng.randrange(1, n)) % n
+		chk.case("row_arith", {"cols": cols, "i": i, "k": k, "expr": rng.choice(["a*2", "1000-a", "-a", "a+b", "a+list", "b-a"]), "touch": rng.choice(["other-row", "other-row", "shape", "nothing"])}, "row-arith")
 	# table arithmetic
 	ntab = 300 if chk.quick() else 1500
 	for _ in range(ntab):
